@@ -272,6 +272,37 @@ def real(f, *args, **kwargs):
     return f(*args, **kwargs)
 
 
+def spawn(coro, start=True):
+    """Start a coroutine of the real code as a suspendable task: it runs until a contract at one of
+    its awaits calls suspend(tag), or until it ends.  -> task (.done, .ok, .value, .exc, .waiting)"""
+    from . import tasks
+
+    def runner(task):
+        import asyncio
+        return asyncio.run(coro)
+
+    t = tasks.Task(runner, engine_errors=(AssumeFailed,))
+    return t.start() if start else t
+
+
+def start(task):
+    return task.start()
+
+
+def suspend(tag=None):
+    """(in a contract of an awaited callee) hand control back to the harness until it resumes the task."""
+    from . import tasks
+    value, e = tasks.current().suspend(tag)
+    if e is not None:
+        raise e
+    return value
+
+
+def resume(task, value=None, exc=None):
+    task.resume(value, exc)
+    return task
+
+
 def run_coro(coro):
     """Run a coroutine object to completion (natively on a fresh event loop)."""
     import asyncio
